@@ -1,14 +1,14 @@
 /-
 C10 with ALL extensions (tables off) on the domain WITH INLINE LINKS, part 1 (worker cf): the stages that the footnotes
 extension adds to `PipelineX.treeX` and the generic tails behind the block parser, with the invariants of `Props/C10c.lean`
-(`AdjC`: simple regions behind `](` and `![`) over the generalised token grammar of `Spec/F/NoCtl.lean` (foreign
+(`AdjCA`: simple regions behind `](` and `![`) over the generalised token grammar of `Spec/F/NoCtl.lean` (foreign
 tokens: the two footnote tokens, live raw-HTML placeholders).  It is `Lemmas/F/PlaceholdersXFn.lean` (workers ff, fc1) with
-`Adj3` replaced by `AdjC`:
+`Adj3` replaced by `AdjCA`:
 
 * `PWC wl`: the token-free string class of the block stage (characters of the domain, no backslash–backtick, CLOSED simple
   regions, with wikilinks no `[` before a blank) — g3's class of `Lemmas/PlaceholdersXCAll.lean`;
 * `FnQC wl`: an element of the tree before the inline stage: F-`WNodeC 0`, `QN`, only `code` elements have an atomic
-  text, a non-atomic text is made of ordinary characters and foreign tokens AND its regions are closed (`AdjC false`):
+  text, a non-atomic text is made of ordinary characters and foreign tokens AND its regions are closed (`AdjCA false`):
   `NBSP_PLACEHOLDER` is appended to such a text, and a token appended to an OPEN region would break it
   (`regionsOK_append_closed`: STX is neither a `destChar` nor an `altChar`);
 * `makeLis_specC`, `makeDiv_specC` (footnote bodies are block-parsed by `parseChunkX`: g3's cut-closed
@@ -22,6 +22,7 @@ Core Lean only.
 import MdVerif.Lemmas.PlaceholdersXCAll
 import MdVerif.Lemmas.F.PlaceholdersXCFM
 import MdVerif.Lemmas.F.PlaceholdersXFn
+import MdVerif.Lemmas.F.PlaceholdersAmpBlockC
 
 namespace MdVerif.NoCtlXCF
 variable [MdVerif.NoCtlF.HtmlBound]
@@ -31,6 +32,7 @@ open Inline hiding STX ETX
 open InlineX
 open MdVerif.NoCtl hiding Bnd BuildOK BuildOKB Clean CleanB Covered DNode DNode.mono DNode.toW DataB Delim DelimB ENode ENode.toS EscOK FMSpec FMSpecB FNode FoundOK FoundOKB GrpOK GrpOK.cut HIOut HIOut.trans HIOutB HISpec HISpecB HIok HIokB HeadOK HeadOK.close IsTok ItemOK ItemOKB ModeOK NestedOK NestedOKB Out Out.set_tail Out.tail OutB OutB.head PPInv PPInv.cons PPInv.reverse PPInvB PPInvB.finish PPOutB PPSpec PPSpecB RInv RInvB RawNode SNode SNode.mono SNode.toW SNodeB SNodeB.mono SNodeB.toW Splice SpliceB StOK StOK.push StOKB StOKB.push StrB StrB.mono StrB.toT StrS StrT StrT.mono StrW StrW.mono SubOK SubOKB TNode Unclean VInv VInvB WF WF.append WF.lstrip WF.mono WF.nil WF.of_noCtl WF.ph WF.plain WF.rstrip WF.split WF.split_aux WF.strip WF.tok WFO WNode WNode.children_irrel WNode.clean WNode.mono WNode.set_tail WNodeB WNodeB.children_irrel WNodeB.clean WNodeB.mono WNodeB.set_tail aNode_snodeB all_clean all_cleanB all_clean_list all_clean_listB applyPatternB_spec applyPattern_spec backtick_stash_ok backtick_stash_okB bnd_cons_right bnd_nil_left bnd_nil_right bnd_snoc_left brNode_raw brNode_snodeB buildB_spec build_spec dataB_of_strB delimB_star delimB_under delim_star delim_under dnode_append dnode_mkEl dnode_setTextOrTail domB_escToken domB_placeholder domChar_inner domS_escToken domS_placeholder domS_tok elStepB_spec elStep_spec emHandleB_spec emHandle_spec emScanB_spec emScan_spec em_stash_ok em_stash_okB enode_append enode_mkEl enode_setTextOrTail escOK_default escape_stash_ok escape_stash_okB find_ph_escToken find_ph_wf fmSpecB fmSpec_of_modeOK forall_DNode_mono forall_DNode_toW forall_SNodeB_mono forall_SNodeB_toW forall_WNode_mono forall_WNode_monoB getD_of_not_truthy grpOK_nil grpOK_strB handleInlineB_spec handleInline_spec hiLoopB_spec hiLoop_spec hiNodeB_spec hiNode_spec hiNodesB_spec hiNodes_spec hiOptB_spec hiOpt_spec hiSpecB hiSpecB_of_fmSpecB hiSpec_false hiSpec_of_fmSpec hiSpec_true inner inner_cases inner_digit inner_ne isTok_escToken isTok_placeholder linebreak_stash_ok linebreak_stash_okB linkHandle_ref_ok linkTextB_spec linkText_spec modeOK_false modeOK_true noCtl_of_wf noCtl_of_wf_no_stx not_strong_stash_ok not_strong_stash_okB parseSubB_spec parseSub_spec petTailB_spec petTail_spec petTextB_spec petText_code petText_spec pet_both pet_bothB ppLoopB_spec ppLoop_spec ppTopB_spec ppTop_spec procKidsB_spec procKids_spec procNodeB_spec procNode_spec processPlaceholdersB_spec processPlaceholders_spec rawNode_of_dnode runLoop_spec runLoop_specB run_spec run_specB sepOK3_placeholder sepOK_placeholder seqDecomp_wf seqMatch_spec seqMatch_specB space_not_inner spliceB_of_span spliceB_out splice_of_span splice_out strB_none strB_zero_of_not_processed strS_nil strT_none strT_of_noCtl strW_append strW_none strW_some strW_zero_of_not_processed subLoopB_spec subLoop_spec subTryB_spec subTry_spec tok_append_split tok_split unclean_setAt_outside unescStep_fnode unescapeKids_fnode_some unescapeText_wf unescapeText_wf_some unescapeTree_fnode unescapeTree_fnode_some visitChild_spec visitChild_specB visitLoop_spec visitLoop_specB visit_tail visit_tailB visit_text visit_textB wf_escToken wf_false_zero_iff wf_placeholder BtSafe btSafe_of_no_stx bt_first_match BtInv btInv_of_done btInv_succ StrC StrTC SNodeC ItemOKC StOKC WNodeC HISpecC strC_none strT_noneC StrC.mono StrTC.mono StrC.toT strT_of_noCtlC OutC HeadOKC WNodeC.set_tail HeadOKC.close OutC.head PPInvC linkTextC_spec NestedOKC PPOutC PPInvC.finish ppLoopC_spec SNodeC.toW forall_SNodeC_toW PPSpecC strC_zero_of_not_processed petTailC_spec petTextC_spec petText_codeC pet_bothC procKidsC_spec procNodeC_spec processPlaceholdersC_spec ppTopC_spec WNodeC.mono forall_WNode_monoC WNodeC.children_irrel WNodeC.clean all_cleanC visit_textC visit_tailC visitChild_specC VInvC visitLoop_specC RInvC runLoop_specC run_specC DataC SpliceC FoundOKC FMSpecC HIOutC HIokC StOKC.push SNodeC.mono forall_SNodeC_mono dataC_of_strC hiOptC_spec hiNodeC_spec hiNodesC_spec elStepC_spec spliceC_out applyPatternC_spec hiLoopC_spec handleInlineC_spec hiSpecC_of_fmSpecC GrpOKC grpOK_nilC GrpOKC.cut seqMatch_specC ENodeC ENodeC.toS grpOK_strC enode_mkElC enode_appendC enode_setTextOrTailC BuildOKC SubOKC subTryC_spec subLoopC_spec parseSubC_spec buildC_spec spliceC_of_span emHandleC_spec emScanC_spec em_stash_okC escape_stash_okC brNode_snodeC linebreak_stash_okC not_strong_stash_okC aNode_snodeC linkHandle_ref_okC snodeC_setAttr imgNode_snodeC imgEl_okC aEl_okC splice_linkC linkHandle_link_okC linkHandle_image_okC imgRefEl_okC linkHandle_imgref_okC backtick_stash_okC fmSpecC hiSpecC
 open MdVerif.NoCtlF
+open MdVerif.NoCtlXF (pDomA allC_domA attrsNoCtl_of_attrsCA refsOK_of_logCA abbrs_noctlA)
 open MdVerif.NoCtlXC hiding tok_placeholder qw_splice_data ppLoopQ_spec PPSpecQ petTailQ_spec petTextQ_spec pet_bothQ procKidsQ_spec procNodeQ_spec processPlaceholdersQ_spec ppTopQ_spec findMatchQ FMSpecXB HIokXB HISpecXB hiOptXB_spec hiNodeXB_spec hiNodesXB_spec elStepXB_spec spliceXB_out StepOut applyPatternXB_spec hiLoopXB_spec handleInlineXB_spec hiSpecXB_of_fmSpecXB visit_textXB visit_tailXB visitChildX_specB VInvXB visitLoopX_specB RInvXB runLoopX_specB runX_specB EntrySpecXB fmSpecXB_of_entries btInv_congr dataB_congr spliceB_congr foundOKB_congr entry_core entry_nl labelStr_strB wikiNode_ok entry_wikilink digits_strB noCtl_natToDec noCtl_bumpRef noCtl_uniqueRefLoop noCtl_footnoteRefId aNode2_ok fnRefNode_ok entry_footnote fmSpecXB_inline fmSpecXB_tables hiSpecXB_tables hiSpecXB_inline
 
 /-! ## 0. a token behind closed regions -/
@@ -80,18 +82,18 @@ theorem regionsOK_append_closed {lax : Bool} {a b : Str} (ha : regionsOK false a
 /-! ## 1. the block tree and `FootnoteTreeprocessor` -/
 
 /-- the string class that the block stage keeps on the domain of `C10_partial_inline_links` (+ wikilinks) -/
-abbrev PWC (wl : Bool) : Str → Prop := fun s => (Blk.AllC NoCtlX.pDom s ∧ AdjC false s) ∧ Qw wl s
+abbrev PWC (wl : Bool) : Str → Prop := fun s => (Blk.AllC pDomA s ∧ AdjCA false s) ∧ Qw wl s
 
 /-- an element of the tree before the inline stage: `WNodeC 0` of the generalised grammar, `QN`, only `code` elements
     have an atomic text, a non-atomic text is made of ordinary characters and foreign tokens and its regions are closed -/
 def FnQC (wl : Bool) (n : Node) : Prop :=
   WNodeC 0 n ∧ QN wl n ∧ (n.textAtomic = true → isCode n = true) ∧
-  (n.textAtomic = false → WFO false 0 n.text ∧ AdjC false (n.text.getD []))
+  (n.textAtomic = false → WFO false 0 n.text ∧ AdjCA false (n.text.getD []))
 
-theorem fnQC_of_bnodeXP {wl : Bool} {n : Node} (h : BlkX.BNodeXP NoCtlX.pDom Blk.okc (PWC wl) n) : FnQC wl n := by
+theorem fnQC_of_bnodeXP {wl : Bool} {n : Node} (h : BlkX.BNodeXP pDomA Blk.okc (PWC wl) n) : FnQC wl n := by
   obtain ⟨⟨b1, b2, b3, b4, b5, b6, b7⟩, p1, p2⟩ := h
-  have htail := allC_domB p1.1.1
-  refine ⟨⟨b1, NoCtlX.attrsNoCtl_of_attrsC b2, b3, strT_of_noCtlC htail.1 htail.2 p1.1.2.lax, ?_,
+  have htail := allC_domA p1.1.1
+  refine ⟨⟨b1, attrsNoCtl_of_attrsCA b2, b3, strT_of_noCtlC htail.1 htail.2 p1.1.2.lax, ?_,
     fun hc => b7 (by simpa [isCode] using hc)⟩, ⟨fun ha => (p2 ha).2, p1.2⟩, ?_, ?_⟩
   · split
     · rename_i hat
@@ -100,13 +102,13 @@ theorem fnQC_of_bnodeXP {wl : Bool} {n : Node} (h : BlkX.BNodeXP NoCtlX.pDom Blk
     · rename_i hat
       have hat' : n.textAtomic = false := by simpa using hat
       have ht := p2 hat'
-      have htx := allC_domB ht.1.1
+      have htx := allC_domA ht.1.1
       exact strT_of_noCtlC htx.1 htx.2 ht.1.2.lax
   · intro ha
     have := b6 ha
     simp [isCode, this]
   · intro ha
-    exact ⟨WF.of_noCtl (allC_domB (p2 ha).1.1).1, (p2 ha).1.2⟩
+    exact ⟨WF.of_noCtl (allC_domA (p2 ha).1.1).1, (p2 ha).1.2⟩
 
 theorem fnQC_kids {wl : Bool} {n : Node} (h : FnQC wl n) (kids : List Node) : FnQC wl { n with children := kids } := h
 
@@ -119,7 +121,7 @@ theorem fnQC_lit {wl : Bool} (tag : String) (attrs : List (Str × Str)) (kids : 
     (hc : (Tag.name tag.toList == Tag.name "code".toList) = false) (ha : attrsNoCtl attrs) :
     FnQC wl { FootnotesTree.el tag with attrs := attrs, children := kids } := by
   refine ⟨⟨ht, ha, rfl, strT_noneC 0, ?_, ?_⟩, ⟨fun _ _ => noPair_nil _ _, fun _ => noPair_nil _ _⟩, ?_,
-    fun _ => ⟨.nil, adjC_nil false⟩⟩
+    fun _ => ⟨.nil, adjCA_nil false⟩⟩
   · show (if false = true then _ else _)
     simp only [Bool.false_eq_true, if_false]
     exact strT_noneC 0
@@ -133,7 +135,7 @@ section FnOn
 variable [FnOn]
 
 /-- a string of ordinary characters and foreign tokens, of the domain, is a string of the tree -/
-theorem strTC_of_fwf {k : Nat} {s : Str} (h : WF false 0 s) (hd : DomB s) (ha : AdjC true s) : StrTC k (some s) :=
+theorem strTC_of_fwf {k : Nat} {s : Str} (h : WF false 0 s) (hd : DomA s) (ha : AdjCA true s) : StrTC k (some s) :=
   ⟨WF.mono (Nat.zero_le _) (by simp) h, hd, ha, btSafe_of_wf h⟩
 
 /-- `NBSP_PLACEHOLDER` behind the text of a `p` -/
@@ -152,13 +154,14 @@ theorem fnQC_nbsp {wl : Bool} {node : Node} {t : Str} (h : FnQC wl node) (hp : n
   simp only [Bool.false_eq_true, if_false] at h5
   have hs : StrTC 0 (some t) := by rw [← ht]; exact h5
   have hw0 : WF false 0 t := by have := (h8 hna).1; rw [ht] at this; exact this
-  have hc0 : AdjC false t := by have := (h8 hna).2; rw [ht] at this; exact this
+  have hc0 : AdjCA false t := by have := (h8 hna).2; rw [ht] at this; exact this
   have hq : Qw wl t := by have := q1 hna; rw [ht] at this; exact this
   have hnew : WF false 0 (t ++ FootnotesTree.nbspPlaceholder) := hw0.append NoCtlXF.wf_nbsp
-  have hdom : DomB (t ++ FootnotesTree.nbspPlaceholder) := domB_append.2 ⟨hs.2.1, by decide⟩
-  have hadj : AdjC false (t ++ FootnotesTree.nbspPlaceholder) :=
-    ⟨noAdj_append hc0.1 (by decide) (.inr (by decide)),
-     regionsOK_append_closed hc0.2 (by decide) (by decide) (by decide)⟩
+  have hdom : DomA (t ++ FootnotesTree.nbspPlaceholder) := domA_append.2 ⟨hs.2.1, domA_of_domB (by decide)⟩
+  have hadj : AdjCA false (t ++ FootnotesTree.nbspPlaceholder) :=
+    ⟨⟨noAdj_append hc0.1.1 (by decide) (.inr (by decide)),
+     regionsOK_append_closed hc0.1.2 (by decide) (by decide) (by decide)⟩,
+     noEntA_append_tok hc0.2 headStop_of_stx (by decide) (by decide)⟩
   refine ⟨⟨h1, h2, h3, h4, ?_, ?_⟩, ⟨fun _ hw => ?_, q2⟩, fun hx => (by cases hx), fun _ => ⟨hnew, hadj⟩⟩
   · show (if false = true then _ else _)
     simp only [Bool.false_eq_true, if_false]
@@ -176,7 +179,8 @@ theorem backlink_fnQC {wl : Bool} {id : Str} (hid : NoCtl id) (index : Nat) :
   have hnew : WF false 0 FootnotesTree.fnBacklinkText := NoCtlXF.wf_backlinkText
   refine ⟨⟨(by decide : NoCtl "a".toList), ?_, rfl, strT_noneC 0, ?_, ?_⟩,
     ⟨fun _ _ => (by decide : NoPair '[' ' ' FootnotesTree.fnBacklinkText), fun _ => noPair_nil _ _⟩,
-    fun h => (by cases h), fun _ => ⟨hnew, (by decide : AdjC false FootnotesTree.fnBacklinkText)⟩⟩
+    fun h => (by cases h), fun _ => ⟨hnew, ⟨(by decide : AdjC false FootnotesTree.fnBacklinkText),
+      noEntA_of_noEntR (by decide : NoEntR FootnotesTree.fnBacklinkText)⟩⟩⟩
   · intro kv hkv
     simp only [FootnotesTree.backlink, List.mem_cons, List.not_mem_nil, or_false] at hkv
     rcases hkv with rfl | rfl | rfl
@@ -188,7 +192,9 @@ theorem backlink_fnQC {wl : Bool} {id : Str} (hid : NoCtl id) (index : Nat) :
       exact noCtl_append.2 ⟨noCtl_append.2 ⟨by decide, NoCtlX.natToDec_noctl index⟩, by decide⟩
   · show (if false = true then _ else _)
     simp only [Bool.false_eq_true, if_false]
-    exact strTC_of_fwf hnew (by decide) (by decide)
+    exact strTC_of_fwf hnew (domA_of_domB (by decide))
+      ⟨(by decide : AdjC true FootnotesTree.fnBacklinkText),
+        noEntA_of_noEntR (by decide : NoEntR FootnotesTree.fnBacklinkText)⟩
   · intro hc; exact absurd (show (Tag.name "a".toList == Tag.name "code".toList) = true from hc) (by decide)
 
 theorem addBacklink_fnQC {wl : Bool} {li bl li' : Node} (hli : li.Forall (FnQC wl)) (hbl : bl.Forall (FnQC wl))
@@ -202,9 +208,9 @@ theorem addBacklink_fnQC {wl : Bool} {li bl li' : Node} (hli : li.Forall (FnQC w
 /-- the loop of `makeFootnotesDiv`: every `li` is a tree of `FnQC` elements, the log keeps its class -/
 theorem makeLis_specC (x : PipelineX.Exts) (htb : x.tables = false) (cfg : Pipeline.Cfg) (wl : Bool) :
     ∀ (l : List (Str × Str)) (index : Nat) (log : Block.Refs) {lis : List Node} {log' : Block.Refs},
-      (∀ kv ∈ l, Blk.AllC NoCtlX.pDom kv.1 ∧ PWC wl kv.2) → BlkX.LogC NoCtlX.pDom (PWC wl) log →
+      (∀ kv ∈ l, Blk.AllC pDomA kv.1 ∧ PWC wl kv.2) → BlkX.LogC pDomA (PWC wl) log →
       FootnotesTree.makeLis (PipelineX.parseChunkX x cfg) PipelineX.fnCount l index log = .ok (lis, log') →
-      (∀ li ∈ lis, li.Forall (FnQC wl)) ∧ BlkX.LogC NoCtlX.pDom (PWC wl) log'
+      (∀ li ∈ lis, li.Forall (FnQC wl)) ∧ BlkX.LogC pDomA (PWC wl) log'
   | [], _, log, lis, log', _, hlog, h => by
     simp only [FootnotesTree.makeLis, FootnotesTree.R.ok.injEq, Prod.mk.injEq] at h
     obtain ⟨rfl, rfl⟩ := h
@@ -227,14 +233,14 @@ theorem makeLis_specC (x : PipelineX.Exts) (htb : x.tables = false) (cfg : Pipel
             obtain ⟨rfl, rfl⟩ := h
             unfold PipelineX.parseChunkX at hparse
             rw [htb] at hparse
-            obtain ⟨hsur, hlog1⟩ := BlkXC.parseChunkXT_strs (strDomXC_adjCq wl) x.blockCfg cfg.tab _ log hlog
+            obtain ⟨hsur, hlog1⟩ := BlkXC.parseChunkXT_strs (strDomXC_adjCqA wl) x.blockCfg cfg.tab _ log hlog
               text hkv.2 hparse
             obtain ⟨ih1, ih2⟩ := makeLis_specC x htb cfg wl rest (index + 1) log1
               (fun kv hkv => hl kv (List.mem_cons_of_mem _ hkv)) hlog1 hrest
             refine ⟨?_, ih2⟩
             intro li hli
             rcases List.mem_cons.1 hli with rfl | hli
-            · refine addBacklink_fnQC ?_ (backlink_fnQC (allC_domB hkv.1).1 index) hadd
+            · refine addBacklink_fnQC ?_ (backlink_fnQC (allC_domA hkv.1).1 index) hadd
               rw [Node.forall_iff]
               refine ⟨?_, ?_⟩
               · refine fnQC_lit "li" _ _ (by decide) (by decide) ?_
@@ -242,7 +248,7 @@ theorem makeLis_specC (x : PipelineX.Exts) (htb : x.tables = false) (cfg : Pipel
                 simp only [List.mem_singleton] at hkv'
                 subst hkv'
                 exact ⟨(by decide : NoCtl "id".toList), noCtl_cons.2 ⟨by decide, noCtl_cons.2 ⟨by decide, noCtl_cons.2 ⟨by decide,
-                  (allC_domB hkv.1).1⟩⟩⟩⟩
+                  (allC_domA hkv.1).1⟩⟩⟩⟩
               · intro c hc
                 have hsur' := (Node.forall_iff _ _).1 hsur
                 exact Node.Forall.mono (fun _ hn => fnQC_of_bnodeXP hn) c (hsur'.2 c hc)
@@ -252,10 +258,10 @@ theorem makeLis_specC (x : PipelineX.Exts) (htb : x.tables = false) (cfg : Pipel
 
 /-- `makeFootnotesDiv` -/
 theorem makeDiv_specC (x : PipelineX.Exts) (htb : x.tables = false) (cfg : Pipeline.Cfg) (wl : Bool) {log : Block.Refs}
-    (hlog : BlkX.LogC NoCtlX.pDom (PWC wl) log) {div : Option Node} {log' : Block.Refs}
+    (hlog : BlkX.LogC pDomA (PWC wl) log) {div : Option Node} {log' : Block.Refs}
     (h : FootnotesTree.makeDiv (PipelineX.parseChunkX x cfg) PipelineX.fnCount (BlockExt.footnotesOf log) log =
       .ok (div, log')) :
-    (∀ d, div = some d → d.Forall (FnQC wl)) ∧ BlkX.LogC NoCtlX.pDom (PWC wl) log' := by
+    (∀ d, div = some d → d.Forall (FnQC wl)) ∧ BlkX.LogC pDomA (PWC wl) log' := by
   unfold FootnotesTree.makeDiv at h
   split at h
   · simp only [FootnotesTree.R.ok.injEq, Prod.mk.injEq] at h
@@ -303,21 +309,24 @@ theorem fnodeA_of_wnodeC {n : Node} (h : WNodeC 0 n) : NoCtlXF.FNodeA n := by
 theorem fnodeX_of_wnodeC {n : Node} (h : WNodeC 0 n) : NoCtlF.FNodeX n := (fnodeA_of_wnodeC h).1
 
 /-- **the stages behind the block parser with footnotes on, inline links allowed**: block tree of `FnQC` elements
-    (texts and tails of the domain with foreign tokens, closed simple regions), log of the token-free class `PWC`, the
-    raw-HTML stash as the grammar expects it (`StashOK`); whatever the rest of `convertX` answers contains neither STX
+    (texts and tails of the domain with foreign tokens, closed simple regions), log of the token-free class `PWC`, the entries
+    of the raw-HTML stash of the preprocessors free of STX/ETX, `HtmlBound.h` the length of the raw-HTML stash behind the
+    inline stage; whatever the rest of `convertX` answers contains neither STX
     nor ETX -/
 theorem tail_fnC [FnOn] {x : PipelineX.Exts} (hfn : x.footnotes = true) (htb : x.tables = false) {cfg : Pipeline.Cfg}
-    (hcfg : EscOK cfg.esc) {stash : List Str} (hst : NoCtlXF.StashOK x stash) {root : Node} {log log' : Block.Refs}
-    {div : Option Node}
-    (hroot : root.Forall (FnQC x.wikilinks)) (hlog : BlkX.LogC NoCtlX.pDom (PWC x.wikilinks) log)
+    (hcfg : EscOK cfg.esc) {stash : List Str} (hfnb : HtmlBound.fn = x.footnotes) (hent : ∀ e ∈ stash, NoCtl e)
+    {root : Node} {log log' : Block.Refs} {div : Option Node}
+    (hroot : root.Forall (FnQC x.wikilinks)) (hlog : BlkX.LogC pDomA (PWC x.wikilinks) log)
     (hm : FootnotesTree.makeDiv (PipelineX.parseChunkX x cfg) PipelineX.fnCount (BlockExt.footnotesOf log) log =
       .ok (div, log'))
     {t t' u : Node} {xs : InlineX.XSt} {html : List Str} {out : Str}
     (hr : InlineX.runX (NoCtlX.xcX x cfg log') (NoCtlXF.fnRoot root div) stash = some (t, xs))
+    (hh : HtmlBound.h = xs.st.html.length)
     (hdp : FootnotesTree.duplicates xs.fn t = some t')
     (hl : NoCtlX.lateX x cfg (BlockExt.abbrsOf log') t' xs.st.html = .ok u html)
     (hf : PipelineX.finishX x cfg html (Ser.serialize cfg.fmt u) = .ok out)
-    (habbr : BlkX.LogC NoCtlX.pDom (PWC x.wikilinks) log' → NoCtlXF.AbbrTabOK x (BlockExt.abbrsOf log')) :
+    (habbr : HtmlOK xs.st.html stash → BlkX.LogC pDomA (PWC x.wikilinks) log' →
+      NoCtlXF.AbbrTabOK x (BlockExt.abbrsOf log')) :
     NoCtl out := by
   obtain ⟨hdiv, hlog'⟩ := makeDiv_specC x htb cfg x.wikilinks hlog hm
   have hfr : (NoCtlXF.fnRoot root div).Forall (FnQC x.wikilinks) := by
@@ -331,37 +340,39 @@ theorem tail_fnC [FnOn] {x : PipelineX.Exts} (hfn : x.footnotes = true) (htb : x
     intro k hk
     simp only [List.mem_map] at hk
     obtain ⟨kv, hkv, rfl⟩ := hk
-    exact (allC_domB (BlkX.footnotesOf_c hlog' kv hkv).1).1
+    exact (allC_domA (BlkX.footnotesOf_c hlog' kv hkv).1).1
   have hhi := hiSpecXB_tables (xc := NoCtlX.xcX x cfg log') (NoCtlXF.escOK_escX x hcfg)
-    (NoCtlX.refsOK_of_logC x _ hlog') hkeys (fn := x.footnotes) (wl := x.wikilinks) (nl := x.nl2br) rfl
-  obtain ⟨ht, hhtml⟩ := runX_specB hhi htree htreeq hr
+    (refsOK_of_logCA x _ hlog') hkeys (fn := x.footnotes) (wl := x.wikilinks) (nl := x.nl2br) rfl
+  obtain ⟨ht, hhtml⟩ := runX_specB hhi htree htreeq hr (Nat.le_of_eq hh.symm)
   have htA : t'.Forall NoCtlXF.FNodeA :=
     NoCtlXF.duplicates_fnodeA xs.fn t (Node.Forall.mono (fun _ hn => fnodeA_of_wnodeC hn) t ht) hdp
   have htX : t'.Forall NoCtlF.FNodeX := Node.Forall.mono (fun _ hn => hn.1) t' htA
-  rw [hhtml] at hl
-  exact NoCtlXF.late_noctl_st cfg hst (habbr hlog') htX hl hf
+  have hst : NoCtlXF.StashOK x xs.st.html := ⟨Nat.le_of_eq hh, hfnb, hhtml.noCtl hent⟩
+  exact NoCtlXF.late_noctl_st cfg hst (habbr hhtml hlog') htX hl hf
 
 /-- **the stages behind the block parser with footnotes off, inline links allowed** -/
 theorem tail_nofnC {x : PipelineX.Exts} (hfn : x.footnotes = false) {cfg : Pipeline.Cfg} (hcfg : EscOK cfg.esc)
-    {stash : List Str} (hst : NoCtlXF.StashOK x stash) {root : Node} {log : Block.Refs}
-    (hroot : root.Forall (FnQC x.wikilinks)) (hlog : BlkX.LogC NoCtlX.pDom (PWC x.wikilinks) log)
+    {stash : List Str} (hfnb : HtmlBound.fn = x.footnotes) (hent : ∀ e ∈ stash, NoCtl e)
+    {root : Node} {log : Block.Refs}
+    (hroot : root.Forall (FnQC x.wikilinks)) (hlog : BlkX.LogC pDomA (PWC x.wikilinks) log)
     {t u : Node} {xs : InlineX.XSt} {html : List Str} {out : Str}
     (hr : InlineX.runX (NoCtlX.xcX x cfg log) root stash = some (t, xs))
+    (hh : HtmlBound.h = xs.st.html.length)
     (hl : NoCtlX.lateX x cfg (BlockExt.abbrsOf log) t xs.st.html = .ok u html)
     (hf : PipelineX.finishX x cfg html (Ser.serialize cfg.fmt u) = .ok out)
-    (habbr : NoCtlXF.AbbrTabOK x (BlockExt.abbrsOf log)) : NoCtl out := by
+    (habbr : HtmlOK xs.st.html stash → NoCtlXF.AbbrTabOK x (BlockExt.abbrsOf log)) : NoCtl out := by
   have htree : root.Forall (WNodeC 0) := Node.Forall.mono (fun _ hn => hn.1) _ hroot
   have htreeq : root.Forall (QN x.wikilinks) := Node.Forall.mono (fun _ hn => hn.2.1) _ hroot
   have hkeys : ∀ k ∈ (NoCtlX.xcX x cfg log).fnKeys, NoCtl k := by
     intro k hk
     simp only [List.mem_map] at hk
     obtain ⟨kv, hkv, rfl⟩ := hk
-    exact (allC_domB (BlkX.footnotesOf_c hlog kv hkv).1).1
+    exact (allC_domA (BlkX.footnotesOf_c hlog kv hkv).1).1
   have hhi := hiSpecXB_tables (xc := NoCtlX.xcX x cfg log) (NoCtlXF.escOK_escX x hcfg)
-    (NoCtlX.refsOK_of_logC x _ hlog) hkeys (fn := x.footnotes) (wl := x.wikilinks) (nl := x.nl2br) rfl
-  obtain ⟨ht, hhtml⟩ := runX_specB hhi htree htreeq hr
+    (refsOK_of_logCA x _ hlog) hkeys (fn := x.footnotes) (wl := x.wikilinks) (nl := x.nl2br) rfl
+  obtain ⟨ht, hhtml⟩ := runX_specB hhi htree htreeq hr (Nat.le_of_eq hh.symm)
   have htX : t.Forall NoCtlF.FNodeX := Node.Forall.mono (fun _ hn => fnodeX_of_wnodeC hn) t ht
-  rw [hhtml] at hl
-  exact NoCtlXF.late_noctl_st cfg hst habbr htX hl hf
+  have hst : NoCtlXF.StashOK x xs.st.html := ⟨Nat.le_of_eq hh, hfnb, hhtml.noCtl hent⟩
+  exact NoCtlXF.late_noctl_st cfg hst (habbr hhtml) htX hl hf
 
 end MdVerif.NoCtlXCF
